@@ -5,7 +5,7 @@ import os, sys, importlib, traceback
 ROOT = os.path.dirname(os.path.dirname(os.path.abspath(__file__)))
 sys.path.insert(0, ROOT); sys.path.insert(0, os.path.join(ROOT, "tools"))
 from vlib import core
-GENS = ["consts_sm4", "consts_sm2"]      # modules under tools/ with generate(repo)
+GENS = ["consts_sm4", "consts_hash", "consts_sm2"]      # modules under tools/ with generate(repo)
 os.makedirs(os.path.join(ROOT, "coq", "Gen"), exist_ok=True)
 rc = 0
 for g in GENS:
